@@ -13,7 +13,9 @@
 //        failure gives a TimestampError and no envelope.
 //verif:pkg signature/cose
 //verif:include cose_sign_env.go
-//verif:harness H_C16_cose_sign
+//verif:harness H_C16_cose_sign_attrs
+//verif:harness H_C16_cose_sign_signer
+//verif:harness H_C16_cose_sign_full thorough-only
 package cose
 
 import (
@@ -38,6 +40,10 @@ var attrs []attrSpec
 var signerKind int // 0 nil, 1 remote, 2 local (RSA key)
 var ctyChoice int
 
+// focus: 0 everything arbitrary (thorough tier); 1 attributes arbitrary under a well-behaved remote signer without
+// timestamper; 2 signer / certificates / timestamper / final encoding arbitrary with at most one attribute
+var focus int
+
 var ctyValues = []string{"application/vnd.cncf.notary.payload.v1+json", "nosubtype"}
 
 func buildRequest() *signature.SignRequest {
@@ -48,7 +54,11 @@ func buildRequest() *signature.SignRequest {
 	req.SigningTime, req.Expiry = rt.Time("signingTime"), rt.Time("expiry")
 	req.SigningScheme = signature.SigningScheme(rt.AtomString("scheme"))
 	req.SigningAgent = rt.AtomString("agent")
-	n := rt.Choose("attrs", 1+rt.Bound("attributes_max", 2, 3))
+	maxAttrs := rt.Bound("attributes_max", 2, 2)
+	if focus >= 2 {
+		maxAttrs = 1
+	}
+	n := rt.Choose("attrs", 1+maxAttrs)
 	for i := 0; i < n; i++ {
 		q := "attr" + string(rune('0'+i))
 		a := attrSpec{key: rt.Havoc[any](q + ".key"), crit: rt.Bool(q + ".critical"), val: rt.Havoc[any](q + ".Value")}
@@ -59,6 +69,18 @@ func buildRequest() *signature.SignRequest {
 		}
 		attrs = append(attrs, a)
 		req.ExtendedSignedAttributes = append(req.ExtendedSignedAttributes, signature.Attribute{Key: a.key, Critical: a.crit, Value: a.val})
+	}
+	if focus == 3 { // C20: a well-behaved remote signer; only the late failures remain (chain not valid at the signing time, final encoding)
+		wellBehaved, noCodecFaults, lateFaults = true, true, true
+		signerKind = 1
+		req.Signer = envRemoteSigner{}
+		return req
+	}
+	if focus == 1 {
+		wellBehaved, noCodecFaults = true, true
+		signerKind = 1
+		req.Signer = envRemoteSigner{}
+		return req
 	}
 	signerKind = rt.Choose("signer", 3)
 	switch signerKind {
@@ -121,7 +143,11 @@ func invalidAttrs() bool {
 	return bad
 }
 
-func H_C16_cose_sign() {
+func H_C16_cose_sign_attrs()  { focus = 1; signCOSE() }
+func H_C16_cose_sign_signer() { focus = 2; signCOSE() }
+func H_C16_cose_sign_full()   { focus = 0; signCOSE() }
+
+func signCOSE() {
 	req := buildRequest()
 	st0, exp0 := req.SigningTime, req.Expiry
 	e := NewEnvelope().(*base.Envelope)
@@ -158,7 +184,7 @@ func H_C16_cose_sign() {
 		inv = rt.Or(inv, len(signerCerts) == 0)
 	}
 	if chainCalls > 0 {
-		inv = rt.Or(inv, rt.Not(chainVerdict))
+		inv = rt.Or(inv, rt.Not(rt.And(chainVerdict, chainTimeOK))) // chain fails code-signing validation at the signing time
 		if len(signerCerts) > 0 && row != 0 {
 			inv = rt.Or(inv, row != rt.AlgRow(rt.KeyInfo(signerCerts[0].PublicKey)))
 		}
